@@ -229,6 +229,87 @@ def keyid_boundary_mutations(b: Base, rng: random.Random) -> t.Iterator[t.Tuple[
         yield f"enc-{name}", cms.build(p["key_identifier"], p["descriptor_raw"], p["enc_cek"], ct, p["content_params"], in_envelope=True)
 
 
+def deterministic_structure_mutations(blob: bytes) -> t.Iterator[t.Tuple[str, bytes]]:
+    """For EVERY TLV of the blob (ancestors re-encoded so that the result is well-formed DER again): delete it, empty it,
+    duplicate it; for every primitive value of 1-2 content octets (versions, ICV length, ...): every value of its first octet."""
+    nodes = tlv_map(blob)
+    rng = random.Random(0)
+    for idx, nd in enumerate(nodes[1:], 1):
+        yield f"consistent-delete[{idx}]", consistent_rewrite(blob, nd, rng, force=b"")
+        yield f"consistent-empty[{idx}]", consistent_rewrite(blob, nd, rng, force=der.tlv(nd.cls, nd.constructed, nd.number, b""))
+        enc = blob[nd.offset : nd.offset + nd.total]
+        yield f"consistent-duplicate[{idx}]", consistent_rewrite(blob, nd, rng, force=enc + enc)
+        if not nd.constructed and 1 <= nd.length <= 2:
+            for v in range(256):
+                if v != nd.content[0]:
+                    yield f"value[{idx}]={v}", consistent_rewrite(blob, nd, rng, force=der.tlv(nd.cls, False, nd.number, bytes([v]) + nd.content[1:]))
+
+
+CONTENT_ALG_OIDS = [
+    "2.16.840.1.101.3.4.1.2",  # aes128-CBC
+    "2.16.840.1.101.3.4.1.6",  # aes128-GCM
+    "2.16.840.1.101.3.4.1.22",  # aes192-CBC
+    "2.16.840.1.101.3.4.1.41",  # aes256-ECB
+    "2.16.840.1.101.3.4.1.42",  # aes256-CBC
+    "2.16.840.1.101.3.4.1.43",  # aes256-OFB
+    "2.16.840.1.101.3.4.1.44",  # aes256-CFB
+    "2.16.840.1.101.3.4.1.45",  # aes256-wrap
+    "2.16.840.1.101.3.4.1.47",  # aes256-CCM
+    "2.16.840.1.101.3.4.1.48",  # aes256-wrap-pad
+    "1.2.840.113549.3.7",  # des-ede3-cbc
+    "1.2.840.113549.3.4",  # rc4
+    "1.2.840.113549.1.9.16.3.18",  # chacha20-poly1305
+]
+
+
+def algorithm_substitutions(b: "Base", rng: random.Random, pad_oracle_tries: int = 256) -> t.Iterator[t.Tuple[str, bytes]]:
+    """Nothing authenticates the algorithm identifiers: re-encode the blob naming another content (or key-wrap) algorithm,
+    with every plausible parameter shape, the tag kept / dropped / content cut to whole blocks, and - for block modes - the
+    byte that controls the last padding byte cycled through all values (what an attacker without the key can do)."""
+    p = cms.parse(b.blob)
+    ct = p["enc_content"]
+    nonce = p["gcm_nonce"]
+    param_shapes = [
+        ("gcm-seq", p["content_params"]),
+        ("iv16", der.enc_octets(nonce + bytes(4))),
+        ("iv12", der.enc_octets(nonce)),
+        ("iv8", der.enc_octets(nonce[:8])),
+        ("seq-iv16", der.enc_seq(der.enc_octets(nonce + bytes(4)))),
+        ("seq-iv12-only", der.enc_seq(der.enc_octets(nonce))),
+        ("seq-iv12-icv12", der.enc_seq(der.enc_octets(nonce), der.enc_int(12))),
+        ("null", b"\x05\x00"),
+        ("absent", None),
+    ]
+    body_shapes = [("as-is", ct), ("no-tag", ct[:-16])]
+    if len(ct) >= 32:
+        body_shapes.append(("whole-blocks", ct[: len(ct) // 16 * 16]))
+    env = b.layout == "envelope"
+    for oid in CONTENT_ALG_OIDS:
+        for pname, params in param_shapes:
+            for bname, body in body_shapes:
+                if not body and env:
+                    continue
+                yield f"content-alg {oid} params {pname} body {bname}", cms.build(p["key_identifier"], p["descriptor_raw"], p["enc_cek"], body, params, in_envelope=env, content_alg=oid)
+            if pname in ("iv16", "seq-iv16") and oid.endswith((".2", ".22", ".42", ".3.7")):
+                # padding oracle style: whole blocks, cycle the byte that is XORed into the last plaintext byte
+                body = ct[: max(16, len(ct) // 16 * 16)] if len(ct) >= 16 else None
+                if body is None:
+                    continue
+                for v in range(pad_oracle_tries):
+                    if len(body) >= 32:
+                        mb = bytearray(body)
+                        mb[-17] = v
+                        yield f"content-alg {oid} params {pname} pad-cycle {v}", cms.build(p["key_identifier"], p["descriptor_raw"], p["enc_cek"], bytes(mb), params, in_envelope=env, content_alg=oid)
+                    else:
+                        iv = bytearray(nonce + bytes(4))
+                        iv[-1] = v
+                        prm = der.enc_octets(bytes(iv)) if pname == "iv16" else der.enc_seq(der.enc_octets(bytes(iv)))
+                        yield f"content-alg {oid} params {pname} iv-cycle {v}", cms.build(p["key_identifier"], p["descriptor_raw"], p["enc_cek"], body, prm, in_envelope=env, content_alg=oid)
+    for oid in CONTENT_ALG_OIDS[:10]:
+        for kp in (None, b"\x05\x00", der.enc_octets(bytes(8))):
+            yield f"kw-alg {oid}", cms.build(p["key_identifier"], p["descriptor_raw"], p["enc_cek"], ct, p["content_params"], in_envelope=env, kw_alg=oid, kw_params=kp)
+
+
 def random_der_tree(rng: random.Random, depth: int = 0) -> bytes:
     if depth > 6 or rng.random() < 0.4:
         k = rng.randrange(6)
